@@ -218,10 +218,6 @@ class Sym:
             return Sym({})
         if x == int(x) and abs(x) < 2 ** 53:
             return Sym.const(int(x))
-        # small rational?
-        fr = Fraction(x).limit_denominator(_SMALL_DEN)
-        if fr != 0 and abs(float(fr) - x) <= abs(x) * 2.0 ** -50:
-            return Sym.const(fr)
         # small rational multiple of a named constant / algebraic constant?
         for val, sym, rtol, max_den in c.named_floats:
             r = x / val
@@ -231,6 +227,10 @@ class Sym:
                 if dev > c.fold_max_dev:
                     c.fold_max_dev = dev
                 return sym * fr
+        # small rational?
+        fr = Fraction(x).limit_denominator(_SMALL_DEN)
+        if fr != 0 and abs(float(fr) - x) <= abs(x) * 2.0 ** -50:
+            return Sym.const(fr)
         if c.strict_floats:
             raise SymError("unrecognised float constant %r" % x)
         c.float_exact += 1
@@ -935,3 +935,31 @@ def symvars(prefix, shape, **kw):
     for idx in numpy.ndindex(*shape):
         out[idx] = _ctx().var(prefix + "".join("_%d" % i for i in idx), **kw)
     return out
+
+
+def clear_inverses(s, max_rounds=6):
+    """Multiply s by the product of the defining denominators of its inverse atoms (each to its highest power), so that
+    s == 0  <=>  result == 0 whenever every denominator is non-zero.  Returns (polynomial, list of denominators used)."""
+    c = _ctx()
+    s = Sym.of(s)
+    used = []
+    for _ in range(max_rounds):
+        invs = {}
+        for m in s.t:
+            for n, e in m:
+                if n in c.inv_def and e > 0:
+                    invs[n] = max(invs.get(n, 0), e)
+        if not invs:
+            return s, used
+        out = Sym({})
+        for m, co in s.t.items():
+            dm = dict(m)
+            term = Sym({tuple(sorted((n, e) for n, e in dm.items() if n not in invs)): co})
+            for n, emax in invs.items():
+                k = emax - dm.get(n, 0)
+                if k:
+                    term = term * (c.inv_def[n] ** k)
+            out = out + term
+        used.extend(c.inv_def[n] for n in invs)
+        s = out
+    return s, used
